@@ -176,6 +176,40 @@ fn model_local_underscore(ctx: &FailCtx, pre: &str) -> bool {
     observe_ast(&pb, ctx).same_behaviour(ctx.actual)
 }
 
+fn has_own_continue(block: &Block) -> bool {
+    block.stats.iter().any(|s| match &s.stat {
+        Stat::Continue => true,
+        Stat::Do(b) => has_own_continue(b),
+        Stat::If(branches, else_b) => {
+            branches.iter().any(|(_, b)| has_own_continue(b)) || else_b.as_ref().map(has_own_continue).unwrap_or(false)
+        }
+        _ => false,
+    })
+}
+
+/// bug model for remove_continue on `repeat ... until cond`: the body is moved into an inner block, so the
+/// locals it declares are no longer visible to `cond`
+fn model_repeat_scope(block: &mut Block) -> usize {
+    let mut n = 0;
+    crate::luaref::walk::map_blocks(block, &mut |blk| {
+        for s in blk.stats.iter_mut() {
+            if let Stat::Repeat(body, _) = &mut s.stat {
+                if has_own_continue(body) {
+                    let inner = std::mem::take(body);
+                    body.stats.push(StatNode {
+                        stat: Stat::Do(inner),
+                        line: 0,
+                        start: 0,
+                        end: 0,
+                    });
+                    n += 1;
+                }
+            }
+        }
+    });
+    n
+}
+
 pub fn classify_behaviour(_property: &str, ctx: &FailCtx) -> Option<String> {
     let rule = ctx.first_bad_rule.as_deref().map(rule_name)?;
     let pre = ctx.pre_text.as_deref()?;
@@ -187,6 +221,26 @@ pub fn classify_behaviour(_property: &str, ctx: &FailCtx) -> Option<String> {
                 if predicted.same_behaviour(ctx.actual) {
                     return Some("and-or-fold-drops-truncation".to_owned());
                 }
+            }
+        }
+    }
+    if rule == "convert_square_root_call" {
+        // repair model: the output behaves like the original once `x ^ 0.5` is computed with sqrt semantics,
+        // i.e. the only difference is IEEE pow vs sqrt on -0 and -inf
+        let env = ctx.env_out;
+        let repaired = luaref::observe(ctx.output, Mode::Luau, ctx.fuel, &|it| {
+            env(it);
+            it.pow_half_as_sqrt = true;
+        });
+        if repaired.same_behaviour(ctx.expected) {
+            return Some("sqrt-as-pow-differs-on-negative-zero-and-infinity".to_owned());
+        }
+    }
+    if rule == "remove_continue" {
+        if let Ok(parsed) = parser::parse(pre.as_bytes(), Mode::Luau) {
+            let mut b = parsed.block;
+            if model_repeat_scope(&mut b) > 0 && observe_ast(&b, ctx).same_behaviour(ctx.actual) {
+                return Some("continue-in-repeat-hides-until-locals".to_owned());
             }
         }
     }
